@@ -307,6 +307,10 @@ def _lazy_tables(ctx):
     r1_aligned_views(ctx)
     r6_lazy_derivations(ctx)   # tables read from files are lazy: concatenation and replacement act on all columns / leave the operand unchanged
 
+def _mutable_defaults(ctx):
+    from .c20 import r9_mutable_defaults
+    r9_mutable_defaults(ctx, ("bionumpy.bnpdataclass.bnpdataclass", "bionumpy.bnpdataclass.lazybnpdataclass", "bionumpy.bnpdataclass.bnpdataclassfunction", "bionumpy.bnpdataclass.pandas_adaptor", "bionumpy.string_array"))   # tables must not share an overlay / cache through a default argument
+
 RULES = [
     ("C19-R6", r6_retarget_guard),
     ("C19-R1", r1_constructor_exhaustive),
@@ -317,4 +321,5 @@ RULES = [
     ("C19-R7", r7_guards_and_list_columns),
     ("C19-T1", _through_time),
     ("C19-R8", _lazy_tables),
+    ("C19-R9", _mutable_defaults),
 ]
